@@ -9,6 +9,9 @@
 package main
 
 import (
+	"strconv"
+	"sync"
+	"sync/atomic"
 	"bytes"
 	"encoding/json"
 	"fmt"
@@ -29,6 +32,25 @@ type oracleReq struct {
 }
 
 var startWall = time.Now()
+
+// currentCall names the library call the (single running) task is inside, for the watchdog report.
+var currentCall [16]atomic.Value
+
+func setCall(s string) {
+	id := simrt.CurTask()
+	if id < 0 {
+		id = 0
+	}
+	currentCall[id%16].Store(s)
+}
+var oracleMs sync.Map
+
+func oracleMsOf(call string) int64 {
+	if v, ok := oracleMs.Load(call); ok {
+		return v.(int64)
+	}
+	return -1
+}
 
 func setClock(c spec.Clock) {
 	time.Local = time.FixedZone(fmt.Sprintf("SIM%+d", c.ZoneS), c.ZoneS)
@@ -58,10 +80,29 @@ func main() {
 	if len(os.Args) < 2 {
 		fatal("usage: simworker run|oracle")
 	}
-	// machinery watchdog only; never a verdict
+	// wall-clock watchdog: the worker only REPORTS that it is stuck and in which call; the driver
+	// re-runs the spec alone before it draws any conclusion
+	wd := 45
+	if v := os.Getenv("VERIF_WATCHDOG_S"); v != "" {
+		if n, err := strconv.Atoi(v); err == nil && n > 0 {
+			wd = n
+		}
+	}
 	go func() {
-		time.Sleep(45 * time.Second)
-		fmt.Fprintln(os.Stderr, "simworker: watchdog: run exceeded 45 s of wall clock")
+		time.Sleep(time.Duration(wd) * time.Second)
+		id := simrt.CurTask()
+		if id < 0 {
+			id = 0
+		}
+		cur, _ := currentCall[id%16].Load().(string)
+		if os.Args[1] == "run" && cur != "" {
+			emit(&spec.Result{Status: "stuck", Internal: fmt.Sprintf("no return after %d s of wall clock", wd),
+				Violation: &spec.Violation{Class: "NO_PROGRESS", Key: "call did not return: " + strings.SplitN(cur, "(", 2)[0],
+					Detail: map[string]string{"call": cur, "waited_s": fmt.Sprint(wd), "fresh_process_ms": fmt.Sprint(oracleMsOf(cur)),
+						"note": "the same call, made first in a fresh process, returned; here it did not return (scheduler was not waiting: the task was running)"}}})
+			os.Exit(0)
+		}
+		fmt.Fprintf(os.Stderr, "simworker: watchdog: exceeded %d s of wall clock\n", wd)
 		os.Exit(4)
 	}()
 	in, err := io.ReadAll(os.Stdin)
@@ -116,6 +157,8 @@ func main() {
 // op is the first and only library call.
 func freshDigest(op ops.Op, c spec.Clock) (string, error) {
 	req, _ := json.Marshal(oracleReq{Op: op, Clock: c})
+	t0 := time.Now()
+	defer func() { oracleMs.Store(op.String(), time.Since(t0).Milliseconds()) }()
 	cmd := exec.Command(os.Args[0], "oracle")
 	cmd.Stdin = bytes.NewReader(req)
 	var out, errb bytes.Buffer
